@@ -1,20 +1,33 @@
 """C01 - first match and captures follow leftmost priority-ordered backtracking (DESIGN.md 6/C01)."""
-from checks import findobs
+from checks import findobs, findgen
 
 LEVEL = "model_checking"
 
 
 def run(ctx, res):
     ctx.build()
-    res.rule = ("B: random source ASTs of the C01 fragment (depth<=4, node budget, non-nullable quantifier operands) x "
-                "option sets from {i,m,s,n,x,RE2} x pattern-directed inputs (<=12 runes; newlines, non-ASCII, combining, "
-                "astral) x every start offset; the result of FindRunesMatchStartingAt is compared by TLC with "
-                "RegexSem.Find(Elab(p,O)) (index, length, complete capture lists). non-trivial = distinct (pattern,input) "
-                "whose match from the natural start is not at the first attempt position or has capture groups")
-    n = 1500 if ctx.tier == "quick" else 12000
-    batches = 1 if ctx.tier == "quick" else 6
-    for b in range(batches):
-        findobs.obs_find(ctx, res, ["-n", str(n // batches), "-stream", str(10 + b), "-rtl", "no"], f"ltr{b}")
+    res.rule = ("F: TLC enumerates the bounded grammar of Gen_Find (23 families, 205 964 patterns over letters a,b) and predicts "
+                "RegexSem.Find for every input string over the alphabet up to the length bound and every start offset; the "
+                "replayer compares index, length and complete capture lists. B: random source ASTs of the C01 fragment "
+                "(depth<=4, node budget) x option sets from {i,m,s,n,x,RE2} x pattern-directed inputs (<=12 runes; newlines, "
+                "non-ASCII, combining, astral) x every start offset, recomputed by TLC (Obs_Find). non-trivial = distinct "
+                "(pattern,input) whose match from the natural start is not simply at the first attempt position without groups")
+    findgen.selftest(ctx)
+    if ctx.tier == "quick":
+        off = ctx.seed % 16
+        findgen.gen_find(ctx, res, findgen.ALL_FAMILIES, [], "net", False, [97, 98, 10], 3, 16, off, "F-net")
+        findobs.obs_find(ctx, res, ["-n", "1200", "-stream", "10", "-rtl", "no"], "B-ltr")
+    else:
+        findgen.gen_find(ctx, res, findgen.ALL_FAMILIES, [], "net", False, [97, 98, 10], 3, 1, 0, "F-net-abn3")
+        findgen.gen_find(ctx, res, findgen.ALL_FAMILIES, [], "net", False, [97, 98], 5, 3, ctx.seed % 3, "F-net-ab5")
+        findgen.gen_find(ctx, res, findgen.ALL_FAMILIES, ["i", "m"], "net", False, [97, 66, 10], 3, 2, ctx.seed % 2, "F-im")
+        findgen.gen_find(ctx, res, findgen.ALL_FAMILIES, ["s", "x"], "net", False, [97, 98, 10], 3, 2, (ctx.seed + 1) % 2, "F-sx")
+        findgen.gen_find(ctx, res, findgen.ALL_FAMILIES, ["n"], "net", False, [97, 98, 10], 3, 3, ctx.seed % 3, "F-n")
+        findgen.gen_find(ctx, res, findgen.ALL_FAMILIES, [], "re2", False, [97, 98, 10], 3, 3, (ctx.seed + 1) % 3, "F-re2")
+        for b in range(6):
+            findobs.obs_find(ctx, res, ["-n", "2500", "-stream", str(10 + b), "-rtl", "no"], f"B-ltr{b}")
+        findobs.obs_find(ctx, res, ["-n", "2000", "-stream", "30", "-rtl", "no", "-depth", "6", "-maxlen", "24"], "B-deep")
+        res.exhaustive = True
     res.assumptions += ["TLC and the CommunityModules Json/IOUtils", "Go standard library unicode tables (Unicode.tla)",
                         "the harness printer prints exactly the AST the specification interprets"]
 
